@@ -1,6 +1,7 @@
 package server
 
 import (
+	"context"
 	"net/http"
 	"net/url"
 )
@@ -315,26 +316,37 @@ func HarnessProbeLoop() {
 	vCover(latest >= 1 && !ok, "unhealthy after a later probe reachable")
 }
 
-// HarnessHealthDrain: probe results interleaved with drain windows (pause / stop / redeploy put a target into the
-// draining state and restore its previous state afterwards, exactly as Target.Drain does): a target that is not being
-// drained and whose latest probe succeeded is in the rotation and gets requests - "one that recovers is used again",
-// also when it failed a probe while it was being drained.
+// HarnessHealthDrain: probe results interleaved with drain windows (the real Target.Drain, parked on an in-flight
+// request for as long as the window lasts): whenever no drain is in progress the rotation holds exactly the targets
+// whose latest probe succeeded - "a target whose latest probe failed receives no new requests ... and one that
+// recovers is used again", also when probes complete, or other targets change state, while a target is being drained.
 func HarnessHealthDrain() {
+	vT2(0, 4)
 	k := vParam("k", 2)
 	L := vParam("steps", 4)
 	lb := &LoadBalancer{healthy: TargetList{}, all: TargetList{}}
 	latestOK := []bool{}
+	everOK := []bool{}
 	draining := []bool{}
-	saved := []TargetState{}
+	release := []context.CancelFunc{}
+	drained := 0
 	for i := 0; i < k; i++ {
 		t := vBareTarget("t"+vItoa(i), TargetStateAdding)
 		t.stateConsumer = lb
 		lb.all = append(lb.all, t)
 		latestOK = append(latestOK, false)
+		everOK = append(everOK, false)
 		draining = append(draining, false)
-		saved = append(saved, TargetStateAdding)
+		release = append(release, nil)
 	}
 	sawDrainFailure := false
+	// (the moment a target enters the draining state is observed at the store itself)
+	enteredDraining := 0
+	vWatchStore("server.Target.state", func(obj any) {
+		if obj.(*Target).state == TargetStateDraining {
+			enteredDraining++
+		}
+	})
 	for step := 0; step < L; step++ {
 		i := vChoose("who"+vItoa(step), k)
 		t := lb.all[i]
@@ -343,25 +355,44 @@ func HarnessHealthDrain() {
 			ok := vChoose("ok"+vItoa(step), 2) == 1
 			t.HealthCheckCompleted(ok)
 			latestOK[i] = ok
+			everOK[i] = everOK[i] || ok
 			if draining[i] && !ok {
 				sawDrainFailure = true
 			}
 		case 2:
 			if draining[i] {
-				t.updateState(saved[i]) // the drain ends: Target.Drain's deferred restore
+				// the in-flight request finishes: the drain ends
+				before := drained
+				release[i]()
+				vBlockUntil(func() bool { return drained > before })
 				draining[i] = false
 			} else {
-				saved[i] = t.updateState(TargetStateDraining) // a drain begins
+				// a drain begins (pause / stop / redeploy) and waits for a request that is in flight on the target
+				ctx, cancel := context.WithCancel(context.Background())
+				req, err := t.StartRequest(vPlainRequest("/").WithContext(ctx))
+				vAssert(err == nil, "health drain: request admitted before the drain")
+				release[i] = func() { t.endInflightRequest(req); cancel() }
+				seen := enteredDraining
+				go func() { t.Drain(1 << 40); drained++ }()
+				vBlockUntil(func() bool { return enteredDraining > seen })
 				draining[i] = true
 			}
 		}
+		anyDraining := false
+		for j := range lb.all {
+			anyDraining = anyDraining || draining[j]
+		}
 		for j, x := range lb.all {
+			in := false
+			for _, h := range lb.healthy {
+				in = in || h == x
+			}
+			// (a target leaves the adding state only through its first success)
 			if !draining[j] && latestOK[j] {
-				in := false
-				for _, h := range lb.healthy {
-					in = in || h == x
-				}
 				vAssert(in, "health: a target that is not being drained and whose latest probe succeeded is in the rotation")
+			}
+			if !anyDraining && everOK[j] && !latestOK[j] {
+				vAssert(!in, "health: a target whose latest probe failed is not in the rotation once no drain is in progress")
 			}
 		}
 	}
